@@ -3,6 +3,8 @@ import DarkluaModel.Shared.VisitorSound.HeapU.UCtx
 import DarkluaModel.Shared.VisitorSound.HeapU.USelf
 import DarkluaModel.Shared.VisitorSound.HeapU.UOracle
 import DarkluaModel.Shared.VisitorSound.HeapU.UDemoSub
+import DarkluaModel.Shared.VisitorSound.HeapU.URepl
+import DarkluaModel.Shared.VisitorSound.HeapU.UMatch
 import DarkluaModel.Shared.VisitorSoundHeap
 import DarkluaModel.Shared.VisitorSoundHeapV
 /-!
